@@ -33,7 +33,8 @@ def check(run: Run) -> None:
     run.rule("Q3", "solve_for_vector evaluated as a whole: the returned equation satisfies lhs - rhs = expr/scale (reduce_factor) or -expr, for every length and "
              "position of the unknown, for vectors occurring in several terms, and for Eq inputs (lhs - rhs)")
     run.rule("Q4", "solve_for_scalar returns Eq(symbol, its solution) for every solved symbol and never disables SymPy's verification of solutions")
-    run.rule("Q5", "is_vector_expr refuses a product of two or more vectors (so solve_for_vector refuses it)")
+    run.rule("Q5", "is_vector_expr, evaluated on a table of small expressions, accepts linear combinations of vectors with scalar coefficients and refuses products and powers of "
+             "vectors, vectors in denominators and expressions without a vector")
     w = World(run.src)
     mod = run.src.need(MOD)
     f = Fn(w, MOD, "solve_for_vector")
@@ -77,26 +78,8 @@ def check(run: Run) -> None:
         if bad is not None:
             run.violate("Q4", f"{MOD}:solve_for_scalar:check-disabled", g.mod, bad,
                         "solve_for_scalar switches off sympy.solve's verification of candidate solutions (check=False): extraneous roots are returned as solutions")
-    # ---- Q5
-    vm = run.src.need("symplyphysics.core.experimental.vectors")
-    ive = next((s_ for s_ in vm.tree.body if isinstance(s_, ast.FunctionDef) and s_.name == "is_vector_expr"), None)
-    run.require(ive is not None, "is_vector_expr not found")
-    run.ob("Q5", "product-of-vectors-refused")
-    mul_if = next((s_ for s_ in ive.body if isinstance(s_, ast.If) and isinstance(s_.test, ast.Call) and dotted(s_.test.func) == "isinstance" and dotted(s_.test.args[1]) in ("SymMul", "Mul")), None)
-    run.require(mul_if is not None, "is_vector_expr: the branch for products not found")
-    raises = [x for x in ast.walk(mul_if) if isinstance(x, ast.Raise)]
-    argsname = f"{dotted(mul_if.test.args[0])}.args"
-    loops = [x for x in ast.walk(mul_if) if isinstance(x, ast.For) and dotted(x.iter) == argsname]
-    comps = [g for x in ast.walk(mul_if) if isinstance(x, (ast.ListComp, ast.GeneratorExp, ast.SetComp)) for g in x.generators if dotted(g.iter) == argsname]
-    early_true = any(isinstance(x, ast.Return) and isinstance(x.value, ast.Constant) and x.value.value is True for lp in loops for s_ in lp.body for x in ast.walk(s_))
-    counted = any(isinstance(x, ast.AugAssign) and isinstance(x.op, ast.Add) for lp in loops for s_ in lp.body for x in ast.walk(s_))
-    good = bool(raises) and not early_true
-    if good and not (counted or comps):
-        raise AnalysisError("C16: is_vector_expr refuses some products, but how it counts the vector factors is not understood")
-    if not good:
-        run.violate("Q5", "symplyphysics.core.experimental.vectors:is_vector_expr:product", vm, ive,
-                    "is_vector_expr no longer counts the vector factors of a product over all its arguments and raises for two or more: a*b*x passes as a vector expression "
-                    "and solve_for_vector rearranges it")
+    # ---- Q5: is_vector_expr evaluated abstractly on a table of small expressions
+    _q5(run)
 
 
 class _VE:
@@ -323,3 +306,110 @@ def _solve_for_vector(run: Run, mod, f) -> None:
         if not isinstance(res, Raised):
             run.violate("Q1", f"{MOD}:solve_for_vector:type-refusal", f.mod, f.fn,
                         f"a non-vector expression is not refused (got {'raises ' + res.exc if isinstance(res, Raised) else repr(res)[:80]})")
+
+
+def _q5(run: Run) -> None:
+    """is_vector_expr decides what solve_for_vector accepts: evaluated on terms whose SymPy class is their top operator"""
+    vm = run.src.need("symplyphysics.core.experimental.vectors")
+    run.require(any(isinstance(s_, ast.FunctionDef) and s_.name == "is_vector_expr" for s_ in vm.tree.body), "is_vector_expr not found")
+
+    def flat(t: T, o: str) -> list:
+        return flat(t.args[0], o) + flat(t.args[1], o) if isinstance(t, T) and t.op == o else [t]
+
+    def margs(t: T) -> list:
+        """SymPy's view of a product: a/b is a * b**-1, -a is -1 * a"""
+        if t.op == "mul":
+            return margs(t.args[0]) + margs(t.args[1])
+        if t.op == "div":
+            def inv(u: T) -> list:
+                if u.op == "mul":
+                    return inv(u.args[0]) + inv(u.args[1])
+                if u.op == "pow" and u.args[1].op == "num":
+                    return [op("pow", u.args[0], num(-u.args[1].val))]  # (b**2)**-1 is b**-2 for SymPy
+                return [op("pow", u, num(-1))]
+            return margs(t.args[0]) + inv(t.args[1])
+        if t.op == "neg":
+            return [num(-1)] + margs(t.args[0])
+        return [t]
+
+    class R(PyReader):
+
+        def hook_call(self, n, env, fns):
+            name = dotted(n.func) or ""
+            if name == "isinstance" and len(n.args) == 2:
+                v = self.ev(n.args[0], env, fns)
+                kinds = {(dotted(e) or "").split(".")[-1] for e in (n.args[1].elts if isinstance(n.args[1], ast.Tuple) else [n.args[1]])}
+                if not isinstance(v, (T, int)):
+                    return False
+                if isinstance(v, int):
+                    v = num(v)
+                res = False
+                if kinds & {"VectorExpr", "VectorSymbol"}:
+                    res = res or _is_vec(v)
+                if kinds & {"SymAdd", "Add"}:
+                    res = res or v.op in ("add", "sub")
+                if kinds & {"SymMul", "Mul"}:
+                    res = res or v.op in ("mul", "div", "neg")
+                if kinds & {"SymPow", "Pow"}:
+                    res = res or v.op == "pow"
+                unknown = kinds - {"VectorExpr", "VectorSymbol", "SymAdd", "Add", "SymMul", "Mul", "SymPow", "Pow"}
+                if unknown and not res:
+                    self.fail(n, f"isinstance against {sorted(unknown)} is not modelled")
+                return res
+            if name == "fraction" and len(n.args) == 1:
+                v = self.ev(n.args[0], env, fns)
+                nu, de = num(1), num(1)
+                for f_ in margs(v):
+                    if f_.op == "pow" and ((f_.args[1].op == "num" and f_.args[1].val < 0) or f_.args[1].op == "neg"):
+                        e_ = num(-f_.args[1].val) if f_.args[1].op == "num" else f_.args[1].args[0]
+                        de = op("mul", de, f_.args[0] if (e_.op == "num" and e_.val == 1) else op("pow", f_.args[0], e_))
+                    else:
+                        nu = op("mul", nu, f_)
+                return [_strip_one(nu), _strip_one(de)]
+            return NotImplemented
+
+        def hook_attr(self, base, attr, n):
+            if isinstance(base, T) and attr == "args":
+                if base.op in ("add", "sub"):
+                    return _addends(base)
+                if base.op in ("mul", "div", "neg"):
+                    return margs(base)
+                if base.op == "pow":
+                    return [base.args[0], base.args[1]]
+                return []
+            if isinstance(base, T) and attr == "base" and base.op == "pow":
+                return base.args[0]
+            if isinstance(base, T) and attr == "exp" and base.op == "pow":
+                return base.args[1]
+            return NotImplemented
+
+    a, b, c, d, x, y = var("va"), var("vb"), var("vc"), var("vd"), var("x"), var("y")
+    # (expression, must it be accepted as a vector expression?)  "refused" = False or an exception
+    table = [
+        ("c", c, True), ("x*c", op("mul", x, c), True), ("c/x", op("div", c, x), True), ("x*c + d", op("add", op("mul", x, c), d), True),
+        ("x*y*c - d/y", op("sub", op("mul", op("mul", x, y), c), op("div", d, y)), True), ("0", num(0), True),
+        ("x", x, False), ("x + c", op("add", x, c), False), ("a*b", op("mul", a, b), False), ("x*a*b + c", op("add", op("mul", op("mul", x, a), b), c), False),
+        ("c/b", op("div", c, b), False), ("c*b**2 + d", op("add", op("mul", c, op("pow", b, num(2))), d), False),
+        ("c/b**2 + d", op("add", op("div", c, op("pow", b, num(2))), d), False), ("b**2", op("pow", b, num(2)), False),
+    ]
+    for label, term, want in table:
+        rd = R(vm.tree, "vectors/__init__.py")
+        run.ob("Q5", label)
+        try:
+            got = rd.call("is_vector_expr", [term])
+        except Raised:
+            got = False
+        if not isinstance(got, bool):
+            raise AnalysisError(f"C16: is_vector_expr({label}) evaluated to {got!r}")
+        if got != want:
+            run.violate("Q5", f"symplyphysics.core.experimental.vectors:is_vector_expr:{label}", vm, vm.tree,
+                        f"is_vector_expr({label}) is {'accepted' if got else 'refused'}; " +
+                        ("a linear combination of vectors with scalar coefficients must be accepted" if want else
+                         "it is not a linear combination of vectors with scalar coefficients (a product or power of vectors, a vector in a denominator, or no vector at all): "
+                         "solve_for_vector would rearrange it as if the extra vector factors were scalars"))
+
+
+def _strip_one(t: T) -> T:
+    while t.op == "mul" and t.args[0].op == "num" and t.args[0].val == 1:
+        t = t.args[1]
+    return t
